@@ -921,3 +921,43 @@ def alloc_err(ctx, P, scope, rule="ALLOC-ERR", tus=None):
 def _null_cond(tu, node):
     t = " ".join(tu.src(node.ast).split()).strip("()").strip() if node.ast is not None else ""
     return True if re.fullmatch(r".+?\s*==\s*NULL|NULL\s*==\s*.+", t) else None
+
+
+ERR_VARS = ("ret", "err", "ret_id")
+
+
+def err_var(ctx, P, scope, rule="ERR-VAR", tus=None):
+    """`ret_id = f(…); if (ret < 0)`: the test that follows a fallible call looks at another error variable than the one assigned."""
+    ctx.rule(rule, "the error test that directly follows `v = <call>` (v one of ret / err / ret_id) tests v: a test of a DIFFERENT error "
+                   "variable there examines the result of an earlier call, and the failure of this one is used as a valid value "
+                   "(an id of -<error> stored into a map)")
+    n = 0
+    for key in (tus or LIB_TUS):
+        tu = P.tus[key]
+        for fn in tu.funcs.values():
+            if fn.body is None or not scope(key, fn.name):
+                continue
+            k = 0
+            for blk in walk(fn.body):
+                if blk.k != "CompoundStmt":
+                    continue
+                kids = [x for x in (blk.kids or []) if x is not None]
+                for a, b in zip(kids, kids[1:]):
+                    a0 = strip(a)
+                    if a0 is None or a0.k != "BinaryOperator" or a0.op != "=" or b.k != "IfStmt":
+                        continue
+                    v = estr(a0.kids[0])
+                    r = strip(a0.kids[1])
+                    if v not in ERR_VARS or r is None or r.k != "CallExpr":
+                        continue
+                    cond = " ".join(tu.src(b.kids[0]).split()).strip("()")
+                    m = re.fullmatch(r"(\w+)\s*(<|!=|==|>)\s*0", cond)
+                    if not m or m.group(1) not in ERR_VARS:
+                        continue
+                    n += 1
+                    ok = m.group(1) == v
+                    ctx.ob(rule, "%s@%d" % (fn.name, k), ok, tu.loc(b),
+                           "`%s` is tested after it is assigned" % v if ok else
+                           "`%s = %s(…)` is followed by a test of `%s`: the result just assigned is never examined" % (v, callee(r), m.group(1)))
+                    k += 1
+    return n
